@@ -435,7 +435,8 @@ func (pConn *PFCPConn) handleSessionModificationRequest(msg message.Message) (me
 		qers: delQERs,
 	}
 
-	cause = upf.SendMsgToUPF(upfMsgTypeDel, deleted, PacketForwardingRules{})
+	// the session holds the remaining rules now: datapath entries they share with the removed ones must stay
+	cause = upf.SendMsgToUPF(upfMsgTypeDel, deleted, session.PacketForwardingRules)
 	if cause == ie.CauseRequestRejected {
 		return sendError(ErrWriteToDatapath)
 	}
